@@ -125,6 +125,14 @@ type Config struct {
 	// PostGateUs: handler time spent after the gate (gate mode), so that the
 	// drain of the backlog takes long enough for the link to recover in it.
 	PostGateUs int `json:"handler_after_gate_us,omitempty"`
+	// LongDrain: drain duration as a dimension.  More requests than workers +
+	// queue + 1 are received before Stop (so part of the burst is parked inside
+	// the NATS client behind the callback that is blocked on the full queue),
+	// and the handlers stay gated until GateUs after Stop was ENTERED: handing
+	// the parked backlog to the work queue - which Stop has to wait for - takes
+	// at least that long.  The duration is a workload parameter only; the
+	// verdicts are the usual ones (per-id counts, no-return by goroutine dump).
+	LongDrain bool `json:"long_drain,omitempty"`
 }
 
 // Snap is a snapshot of the boundary counters.
@@ -365,7 +373,17 @@ func (s *scen) progress() int64 {
 	return sn.Received + sn.Started + sn.Finished + sn.Entered + sn.Exited + s.published.Load()
 }
 
-const watchdog = 30 * time.Second
+const baseWatchdog = 30 * time.Second
+
+// watchdog: the no-progress period after which a scenario gives up.  While the
+// handlers are gated nothing progresses by construction, so the period always
+// exceeds the gate time by a wide margin.
+func (s *scen) watchdog() time.Duration {
+	if g := time.Duration(s.c.GateUs)*time.Microsecond + 15*time.Second; s.c.Dur == "gate" && g > baseWatchdog {
+		return g
+	}
+	return baseWatchdog
+}
 
 // await waits for done.  It gives up only after `watchdog` without any
 // progress of the boundary counters (so a slow machine never trips it while
@@ -382,7 +400,7 @@ func (s *scen) await(done <-chan struct{}) bool {
 		case <-t.C:
 			if p := s.progress(); p != last {
 				last, lastT = p, time.Now()
-			} else if time.Since(lastT) > watchdog {
+			} else if time.Since(lastT) > s.watchdog() {
 				return false
 			}
 		}
@@ -401,7 +419,7 @@ func (s *scen) awaitCond(cond func() bool, abort <-chan struct{}) bool {
 		}
 		if p := s.progress(); p != last {
 			last, lastT = p, time.Now()
-		} else if time.Since(lastT) > watchdog {
+		} else if time.Since(lastT) > s.watchdog() {
 			return false
 		}
 	}
@@ -448,14 +466,14 @@ func (s *scen) hung(what string) *Result {
 		if s.stopReturned.Load() {
 			why = "after-Stop-returned:" + why
 		}
-		s.violation("C20:no-return:"+why, what+": no progress for "+watchdog.String()+" and the goroutine dump shows every goroutine of the server parked in nats_server.go on a channel/wait operation that no live goroutine can complete", map[string]interface{}{"goroutines": excerpt, "state": why})
+		s.violation("C20:no-return:"+why, what+": no progress for "+s.watchdog().String()+" and the goroutine dump shows every goroutine of the server parked in nats_server.go on a channel/wait operation that no live goroutine can complete", map[string]interface{}{"goroutines": excerpt, "state": why})
 	}
 	if len(s.res.Violations) > 0 {
 		s.finish()
 		s.res.Timeline = append(s.res.Timeline, "dump-classification: "+why)
 		return s.res
 	}
-	r := s.inconclusive("%s: no progress for %s, goroutine dump does not establish a blocked-forever condition (%s)", what, watchdog, why)
+	r := s.inconclusive("%s: no progress for %s, goroutine dump does not establish a blocked-forever condition (%s)", what, s.watchdog(), why)
 	r.Timeline = append(r.Timeline, excerpt)
 	return r
 }
@@ -886,8 +904,25 @@ func runScenario(ns *rig.NatsServer, c Config) (res *Result) {
 			blipMu.Unlock()
 			return
 		}
+		if c.LongDrain {
+			// the gate time counts from the instant the goroutine that calls
+			// Stop is running (not from the decision to call it)
+			for !s.stopEntered.Load() {
+				select {
+				case <-scenarioOver:
+					return
+				case <-time.After(200 * time.Microsecond):
+				}
+			}
+		}
 		if c.GateUs > 0 {
-			time.Sleep(time.Duration(c.GateUs) * time.Microsecond)
+			t := time.NewTimer(time.Duration(c.GateUs) * time.Microsecond)
+			defer t.Stop()
+			select {
+			case <-t.C:
+			case <-scenarioOver:
+				return
+			}
 		}
 		openGate()
 	}()
